@@ -121,14 +121,20 @@ CLAIMS = {
          "valid encodings, an independent non-canonical encoder, mutations and random strings is re-encoded by the real code and "
          "decoded again, and TLC compares with the TLA+ decoder's value of the input (kept information: unknown option types, "
          "flag bits, protocol numbers, unreferenced options, raw indexes and counts)", "DESIGN.md §7 C20", FT, FN),
- "C04": ("fault_enumeration",
-         "two real stacks (offerer with one instance / eventgroup, watcher with find_subscribe_eventgroup) run on virtual loops "
-         "with a shared clock and a harness network; fault schedules -- every tick x every gap for crash+restart / stop+start of "
-         "either peer and loss windows, plus seeded multi-fault schedules with drop / duplication / delay, finite TTL with "
-         "refresh and infinite TTL without -- are judged at every idle instant by the TLA+ monitor Mon_C04 evaluated by TLC "
-         "(convergence within TTL + cyclic period after the last disturbance)", "DESIGN.md §7 C04",
-         "fault-schedule enumeration on the real two-stack set-up; verdict by the TLA+ monitor Mon_C04 evaluated in TLC",
-         "no exhaustive TLC model of the two-node composition yet (single-node SD.tla only); bounded fault positions; one known finding (F1) listed in KNOWN_FINDINGS.jsonl"),
+ "C04": ("model_checking",
+         "TLC proves that the TLA+ monitor Mon_C04 can never fire on the two-stack specification spec/SD2.tla (two instances of "
+         "the stack of SDCore.tla -- offerer with one instance / eventgroup, watcher with watch-all and auto-subscribe "
+         "listeners --, a network with loss windows, single drop / duplication / delay, crash / restart and graceful stop / "
+         "start) for every placement of 2 (thorough: 3-4) disturbance steps in the first ten ticks, every order of "
+         "simultaneously due timers and (thorough) every interleaving of the two loops, in finite-TTL and infinite-TTL "
+         "configurations, and that three design deviations are caught; two real stacks on virtual loops with a shared clock and "
+         "a harness network run swept and seeded fault schedules, judged at every idle instant by the same monitor in TLC, and "
+         "their traces are validated against SD2.tla (SD2Trace.tla)", "DESIGN.md §7 C04",
+         "TLA+ two-stack spec + TLC exhaustive check of the property monitor Mon_C04; monitor pass and trace validation of real "
+         "two-stack executions in TLC",
+         "bounded: 2-4 disturbance steps within ten ticks in TLC; swept / seeded fault schedules on the real code; with infinite "
+         "TTLs crash+restart of the offering stack is excluded from the model (known finding F1, KNOWN_FINDINGS.jsonl); zero "
+         "network latency unless a delay disturbance is applied"),
 }
 claimed = sorted(CLAIMS)
 m = {"version": 1, "setup_cmd": "./setup.sh",
